@@ -21,33 +21,126 @@ EXPECTED_RANGE = {
 }
 
 
+def _path_interval(mod, fn: ast.FunctionDef, subject_ok, checkers: Dict[str, list]):
+    """Interval set of the values a function lets through: on every returning path the returned value is the
+    subject (``subject_ok(expr)``; possibly wrapped by a known checker) and the path conditions that test the subject
+    bound it; every other path raises.  (None, why) when the shape is not understood."""
+    from ..core.absval import INF, NotInterval, _compl, _inter, _norm, interval_of
+    from ..core.consteval import NotConstant, const_in
+    from ..core.paths import PathWalker, clone, flat_conds
+
+    try:
+        paths = PathWalker(mod, None).paths(fn)
+    except OverflowError:
+        return None, "too many paths", ""
+    accepted: list = []
+    raised = ""
+    n_ret = 0
+    for p in paths:
+        if p.kind == "raise":
+            exc = p.value
+            raised = ((dotted(exc.func) if isinstance(exc, ast.Call) else dotted(exc)) or "") if exc is not None else raised
+            continue
+        if p.kind != "return" or p.value is None:
+            return None, "a path falls off the end", ""
+        n_ret += 1
+        v = strip_cast(p.value)
+        acc = [(-INF, INF)]
+        if isinstance(v, ast.Call) and isinstance(v.func, ast.Name) and v.func.id in checkers and len(v.args) == 1 and checkers[v.func.id] is not None:
+            acc = checkers[v.func.id]
+            v = strip_cast(v.args[0])
+        if not subject_ok(v):
+            return None, f"returns `{ast.unparse(v)[:40]}`, not the checked value", ""
+        subj = ast.unparse(v)
+
+        class R(ast.NodeTransformer):
+            def generic_visit(self, node):  # replace the subject expression by a name
+                if isinstance(node, ast.expr) and ast.unparse(strip_cast(node)) == subj:
+                    return ast.Name(id="__r", ctx=ast.Load())
+                return super().generic_visit(node)
+
+        for t, pol in flat_conds(p.conds):
+            t2 = R().visit(clone(t))
+            if "__r" not in ast.unparse(t2):
+                continue
+            try:
+                iv = interval_of(t2, "__r", cev=lambda e: const_in(mod, e, None, fn))
+            except (NotInterval, NotConstant, ValueError):
+                return None, f"condition `{ast.unparse(t)[:50]}` is not an interval test", ""
+            acc = _inter(acc, iv if pol else _compl(iv))
+        accepted = _norm(accepted + acc)
+    if not n_ret:
+        return None, "no returning path", ""
+    return accepted, "", raised
+
+
+def range_checkers(repo: Repo) -> Dict[str, Optional[list]]:
+    """Plain functions ``f(x)`` of celtypes that return ``x`` unchanged inside an interval and raise outside it."""
+    mod = repo.mod("celtypes")
+    out: Dict[str, Optional[list]] = {}
+    for node in mod.tree.body:
+        if not isinstance(node, ast.FunctionDef) or len(node.args.args) != 1 or node.decorator_list:
+            continue
+        if any(isinstance(s, ast.FunctionDef) for s in node.body) or not any(isinstance(s, ast.Raise) for s in ast.walk(node)):
+            continue
+        param = node.args.args[0].arg
+        ivs, why, _raised = _path_interval(mod, node, lambda v: isinstance(v, ast.Name) and v.id == param, {})
+        if ivs is not None and ivs and any(a not in (float("-inf"),) or b not in (float("inf"),) for a, b in ivs):
+            out[node.name] = ivs
+    return out
+
+
 def range_decorators(repo: Repo, run: Optional[Run] = None) -> Dict[str, Tuple[Optional[list], str, ast.FunctionDef]]:
     """Module-level functions of celtypes that wrap a callable in a range check:
-    name -> (accepted interval set, raised class, wrapper node)."""
+    name -> (accepted interval set, raised class, wrapper node).  The wrapper may be written in the decorator itself
+    or in a shared factory (`return _range_checked(operator, LO, HI)`), and may delegate the test to a checker."""
+    from ..core.inline import _Rename
+    from ..core.paths import clone
+
     mod = repo.mod("celtypes")
+    checkers = range_checkers(repo)
     out = {}
     for node in mod.tree.body:
         if not isinstance(node, ast.FunctionDef) or len(node.args.args) != 1:
             continue
-        inner = [s for s in node.body if isinstance(s, ast.FunctionDef)]
-        if len(inner) != 1:
-            continue
-        w = inner[0]
-        # the wrapper must call the decorated callable
         param = node.args.args[0].arg
+        inner = [s for s in node.body if isinstance(s, ast.FunctionDef)]
+        w = None
+        if len(inner) == 1:
+            w = inner[0]
+        else:
+            # a factory shared by several decorators: `return factory(<param>, c1, c2, ...)`
+            body = [s for s in node.body if not (isinstance(s, ast.Expr) and isinstance(s.value, ast.Constant))]
+            if len(body) == 1 and isinstance(body[0], ast.Return) and isinstance(strip_cast(body[0].value), ast.Call):
+                call = strip_cast(body[0].value)
+                fname = dotted(call.func)
+                if fname and mod.has(fname) and isinstance(mod.top(fname), ast.FunctionDef) and not call.keywords:
+                    fac = mod.top(fname)
+                    fparams = [a.arg for a in fac.args.args]
+                    finner = [s for s in fac.body if isinstance(s, ast.FunctionDef)]
+                    if len(finner) == 1 and len(call.args) == len(fparams):
+                        binding = dict(zip(fparams, call.args))
+                        w = _Rename(binding, {}).visit(clone(finner[0]))
+                        ast.fix_missing_locations(w)
+                        w.lineno = finner[0].lineno
+        if w is None:
+            continue
         calls = [c for c in ast.walk(w) if isinstance(c, ast.Call) and isinstance(c.func, ast.Name) and c.func.id == param]
         if not calls:
             continue
-        if not any(isinstance(s, ast.Raise) for s in ast.walk(w)):
+        if not any(isinstance(s, ast.Raise) for s in ast.walk(w)) and not any(isinstance(c, ast.Call) and isinstance(c.func, ast.Name) and c.func.id in checkers for c in ast.walk(w)):
             continue
-        from ..core.consteval import const_in
-
-        ivs, info = accepted_intervals(w, cev=lambda e: const_in(mod, e, None, w))
-        raised = ""
-        for s in ast.walk(w):
-            if isinstance(s, ast.Raise) and s.exc is not None:
-                raised = (dotted(s.exc.func) if isinstance(s.exc, ast.Call) else dotted(s.exc)) or ""
-        out[node.name] = (ivs, info if ivs is None else raised, w)
+        ivs, why, raised = _path_interval(mod, w, lambda v: isinstance(v, ast.Call) and isinstance(v.func, ast.Name) and v.func.id == param, checkers)
+        if ivs is not None and ivs == [(float("-inf"), float("inf"))]:
+            continue  # wraps a callable without constraining its result (e.g. a type-matching decorator): not a range check
+        if not raised:
+            # the raise lives in the checker
+            for c in ast.walk(w):
+                if isinstance(c, ast.Call) and isinstance(c.func, ast.Name) and c.func.id in checkers:
+                    for s2 in ast.walk(mod.top(c.func.id)):
+                        if isinstance(s2, ast.Raise) and s2.exc is not None:
+                            raised = (dotted(s2.exc.func) if isinstance(s2.exc, ast.Call) else dotted(s2.exc)) or ""
+        out[node.name] = (ivs, why if ivs is None else raised, w)
     return out
 
 
